@@ -2,7 +2,7 @@
      FUEL NVARS (NAME STR)... NTEMPLATES TEMPLATE...
      TEMPLATE := NTOPS TOP... NBLOCKS (NAME SCOPED01 REQUIRED01 NITEMS ITEM...)...
      TOP      := x0 | x1 | x2 | i ITEM          (extends: known / if true / if false)
-     ITEM     := s STR | e STR | v NAME | b NAME | u K | f NAME | l NAME NVALS STR... NITEMS ITEM...
+     ITEM     := s STR | e STR | v NAME | b NAME | u K | f NAME | l NITER (NBIND (NAME STR)...)... NITEMS ITEM...
      STR      := - | c1.c2.c3 (code points)
    prints   M RES | S RES | W 0/1 | P RES | B name:j,j,..;...
    RES := O STR | E ERR;  P = model on the chain with child content after extends stripped *)
@@ -27,9 +27,10 @@ let rec item () =
   | "b" -> IBlock (n_of_int (int ()))
   | "u" -> ISuper (nat_of_int (int ()))
   | "f" -> ISelf (n_of_int (int ()))
-  | "l" -> let v = n_of_int (int ()) in
-           let nv = int () in let vals = rep nv (fun () -> str_of (next ())) in
-           let ni = int () in let body = rep ni item in IFor (v, vals, body)
+  | "l" -> let nit = int () in
+           let iters = rep nit (fun () -> let nb = int () in
+                                 rep nb (fun () -> let v = n_of_int (int ()) in let s = str_of (next ()) in (v, s))) in
+           let ni = int () in let body = rep ni item in IFor (iters, body)
   | x -> failwith ("bad item " ^ x)
 let top () =
   match next () with
